@@ -1,7 +1,7 @@
 #!/usr/bin/env python3
 """System harness for the web-service properties C16 / C17 (Python 3 stdlib only).
 
-  webharness.py run --server-bin PATH --seed N --cases K --mode seq|conc|c16|d9 [--scale F] [--out FILE]
+  webharness.py run --server-bin PATH --seed N --cases K --mode seq|conc|c16|d9|d14|runkey [--scale F] [--out FILE]
   webharness.py exec --server-bin PATH [--out FILE]        (cases with their `http` request lines on stdin)
 
 It starts the MongoDB stub (mongostub.py, in-process) and the REAL `adf-bdd-server` binary inside a
@@ -10,8 +10,10 @@ private network namespace (`unshare -n`, loopback only; the server binds 0.0.0.0
 request histories from ONE PRNG seed (case k of a run uses seed*100003+k), executes every history on
 a fresh stub database and prints the line protocol of DESIGN.md section 3.1:
 
-  case web-<k> mode=<seq|conc|c16|d9|d9b|d9c> seed=<s>
-  http <jar> <METHOD> <path> <fields>          fields: `-` (no body), `+` (empty form) or k:hex(v),k:hex(v),...
+  case web-<k> mode=<seq|conc|c16|d9|d9b|d9c|d14|runkey> seed=<s>
+  http <jar> <METHOD> <path> <fields>          path: the text sent over the wire (problem names percent-encoded as one
+                                               segment, see seg(); the model decodes it the way actix does);
+                                               fields: `-` (no body), `+` (empty form) or k:hex(v),k:hex(v),...
                                                (`00` = empty string; `raw:` = body sent verbatim, malformed JSON)
   = <status> <cookie-event> <canonical body>   cookie-event: - | set | del; JSON bodies with sorted keys, results
                                                summarised as None | Error:<parse|panic|timeout> | Some[:<ac vectors>];
@@ -34,6 +36,11 @@ a fresh stub database and prints the line protocol of DESIGN.md section 3.1:
 
 `=` lines are compared with the algorithmic Lean model (ServerModel.lean through Drv/Http.lean), `~` lines with
 the specification / monitors evaluated by the Lean driver from the data in the request line.
+
+Names: about 30 % of the generated histories (a PRNG of their own decides, so the other histories are the ones the
+seed gave before) use the second alphabet USERS_X / PNAMES_X / COLLIDING: names with `/ % ? # & = + : , ;` quotes,
+blanks, dots, non-ASCII.  Inside monitor tokens (isolation, logins, dbcheck users=) names are written as tok(name)
+(percent-encoded, the identity on the plain alphabet); JSON bodies and messages carry them verbatim.
 """
 import argparse
 import fcntl
@@ -49,6 +56,7 @@ import sys
 import tempfile
 import threading
 import time
+import urllib.parse
 
 HERE = os.path.dirname(os.path.abspath(__file__))
 sys.path.insert(0, HERE)
@@ -78,6 +86,22 @@ def hx(s):
 
 def unhx(h):
     return "" if h == "00" else bytes.fromhex(h).decode()
+
+
+def seg(name):
+    """a name as ONE path segment on the wire: every byte outside A-Z a-z 0-9 - . _ ~ percent-encoded (RFC 3986);
+    the identity on the names of the plain alphabets and on the canonical names ~t<k> / ~p<k>"""
+    return urllib.parse.quote(name, safe="")
+
+
+def tok(name):
+    """a name inside a protocol token (monitor lines: isolation, logins, dbcheck users=): reversible, free of white
+    space and of the separators / : , + = used there; the name `-` is escaped (a bare `-` means "none").  The
+    identity on the names of the plain alphabets and on the generated names."""
+    if name == "-":
+        return "%2D"
+    return "".join(chr(b) if (48 <= b <= 57 or 65 <= b <= 90 or 97 <= b <= 122 or b in (45, 95, 46, 126)) else "%%%02X" % b
+                   for b in name.encode())
 
 
 def fnv64(s):
@@ -274,6 +298,17 @@ def canon_body(status, data, detail, ren):
 USERS = ["alice", "bob", "carol"]
 PWS = ["pw-one-111!", "pw-two-222!"]
 PNAMES = ["p1", "p2"]
+# second alphabet: names with characters that are special somewhere (URL paths, query strings, JSON, the protocol's own
+# separators, key concatenations such as "<user>/<problem>").  A history of the special kind draws three user names
+# and two problem names from these pools; the COLLIDING sets are built so that <user><sep><problem> coincide for
+# different (user, problem) pairs.
+USERS_X = ["x", "x/y", "a b", "\u00fc", "a%2Fb", "x:y", "a+b", "x/y/z", "q\"r'", "-", "x.y", "a&b=c", "x?y#z", "50%", "a,b;c",
+           "\u4e2d\u6587", "x\\y", " x", "\U0001f600"]
+PNAMES_X = ["y/z", "z", "p 1", "p?q", "p#1", "50%", "a+b", "a%2Fb", "\u00fc", ".", "..", "a&b=c", "q\"r'", "add", "solve", "%zz",
+            "a;b", "x\\y", "-", "y:z", "z/", "/z", "y//z", "%2F", "%", "\u00e9t\u00e9 1", "p1/solve", "a,b"]
+COLLIDING = [(["x", "x/y", "x/y/z"], ["y/z", "z", "z/w"]), (["x", "x/y", "a b"], ["y/z", "z"]),
+             (["x", "x%2Fy", "x/y"], ["y%2Fz", "z", "y/z"]), (["x", "x:y", "x y"], ["y:z", "z", "y z"]),
+             (["a", "a/", "a//"], ["/b", "b", "//b"]), (["x", "x?y", "x#y"], ["y?z", "z", "y#z"])]
 CODES = [
     "s(a).s(b).ac(a,neg(b)).ac(b,neg(a)).",
     "s(a).ac(a,c(v)).",
@@ -288,8 +323,34 @@ CODES = [
 class Gen:
     """request histories as lists of (jar index, method, path, fields|None)"""
 
-    def __init__(self, seed):
+    def __init__(self, seed, special=None):
         self.r = random.Random(seed)
+        # the choice of the alphabet comes from a PRNG of its own: the histories that stay on the plain alphabet are
+        # the ones the same seed produced before the second alphabet existed
+        r2 = random.Random(seed * 7919 + 13)
+        self.special = (r2.random() < 0.3) if special is None else special
+        self.rawpath = 0.0
+        self.users, self.pnames = USERS, PNAMES
+        if self.special:
+            if r2.random() < 0.4:
+                us, ps = COLLIDING[r2.randrange(len(COLLIDING))]
+                self.users, self.pnames = list(us), list(ps)
+            else:
+                self.users, self.pnames = r2.sample(USERS_X, 3), r2.sample(PNAMES_X, 2)
+            # sometimes a problem name is put into the path WITHOUT the encoding of `/ ? #` (what a careless client
+            # does): actix then routes on the raw text (no route: 404 without body; `?`/`#` cut the path)
+            self.rawpath = 0.08 if r2.random() < 0.5 else 0.0
+
+    # segments as a client might write them: lower-case hex, needless escapes, a bare `%`, malformed escapes (actix
+    # decodes `%%32F` to `%2F` when routing and to `/` in the path parameter)
+    WIRE_PROBES = ["y%2fz", "%7A", "%7a", "50%", "%%32F", "%2%46", "y%%32Fz", "%25%32%46", "%2", "%zz", "a%2Bb", "a+b"]
+
+    def seg(self, name):
+        if self.rawpath and self.r.random() < self.rawpath:
+            if self.r.random() < 0.4:
+                return self.pick(self.WIRE_PROBES)
+            return urllib.parse.quote(name, safe="/?#+&=;:,'")
+        return seg(name)
 
     def pick(self, xs):
         return xs[self.r.randrange(len(xs))]
@@ -321,7 +382,7 @@ class Gen:
         return njars, out
 
     def user(self, j, private):
-        u = self.pick(USERS)
+        u = self.pick(self.users)
         return u + str(j) if private else u
 
     def request(self, j, g, private):
@@ -361,7 +422,7 @@ class Gen:
             return ("DELETE", "/users/delete", None)
         if k == "add":
             g["in"] = True     # unauthenticated add creates a temporary account
-            name = self.wpick([(PNAMES[0], 5), (PNAMES[1], 4), ("", 2)])
+            name = self.wpick([(self.pnames[0], 5), (self.pnames[1], 4), ("", 2)] + [(x, 3) for x in self.pnames[2:]])
             code = self.wpick([(c, 6) for c in CODES[:4]] + [(c, 2) for c in CODES[4:]] + [("", 1)])
             if name:
                 g["probs"].append(name)
@@ -377,9 +438,11 @@ class Gen:
             if r.random() < 0.97:
                 f.append(("parsing", parsing))
             return ("POST", "/adf/add", f)
-        pn = self.wpick([(PNAMES[0], 6), (PNAMES[1], 4), ("~p1", 1), ("p9", 1)])
+        pn = self.wpick([(self.pnames[0], 6), (self.pnames[1], 4), ("~p1", 1), ("p9", 1)] + [(x, 3) for x in self.pnames[2:]])
         if g["probs"] and r.random() < 0.7:
             pn = g["probs"][-1]
+        if self.special:
+            pn = self.seg(pn)
         if k == "solve":
             s = self.wpick([(x, 4) for x in STRATEGIES] + [("Nonsense", 1)])
             return ("PUT", "/adf/%s/solve" % pn, [("strategy", s)])
@@ -519,15 +582,18 @@ class Gen:
         """one user; 1-2 problems, all six strategies in random order, repeated gets"""
         r = self.r
         forced = self.ROTATION[k % len(self.ROTATION)] if k is not None else None
-        out = [(0, "POST", "/users/register", [("username", "alice"), ("password", PWS[0])]),
-               (0, "POST", "/users/login", [("username", "alice"), ("password", PWS[0])])]
+        alice = self.users[0] if self.special else "alice"
+        out = [(0, "POST", "/users/register", [("username", alice), ("password", PWS[0])]),
+               (0, "POST", "/users/login", [("username", alice), ("password", PWS[0])])]
         stats = []
-        for pn in (["p1"] if r.random() < 0.6 else ["p1", "p2"]):
+        for p0 in (["p1"] if r.random() < 0.6 else ["p1", "p2"]):
             code, kind = self.adf_code(forced)
             forced = None
-            parsing = self.pick(["Naive", "Hybrid"]) if k is None or pn != "p1" else ["Naive", "Hybrid"][(k // 8) % 2]
+            parsing = self.pick(["Naive", "Hybrid"]) if k is None or p0 != "p1" else ["Naive", "Hybrid"][(k // 8) % 2]
             stats.append((kind, parsing))
-            f = [("name", pn), ("file" if r.random() < 0.15 else "code", code), ("parsing", parsing)]
+            name = self.pnames[0 if p0 == "p1" else 1] if self.special else p0
+            pn = seg(name)
+            f = [("name", name), ("file" if r.random() < 0.15 else "code", code), ("parsing", parsing)]
             out.append((0, "POST", "/adf/add", f))
             out.append((0, "GET", "/adf/" + pn, None))
             strats = list(STRATEGIES)
@@ -634,6 +700,10 @@ class Run:
     def emit(self, line):
         self.out.write(line + "\n")
 
+    def rtok(self, name):
+        """protocol token of a real name (`-` if there is none)"""
+        return tok(self.names.ren(name)) if isinstance(name, str) else "-"
+
     def jar(self, name):
         if name not in self.jars:
             self.jars[name] = Jar(name)
@@ -691,13 +761,13 @@ class Run:
         if "raw" not in fd and fd.get("username") and fd.get("password"):
             pw = fnv64(fd["password"])[:8]
             if path == "/users/register" and status == 200:
-                self.cred.append("R:%s:%s" % (fd["username"], pw))
+                self.cred.append("R:%s:%s" % (tok(fd["username"]), pw))
             elif path == "/users/update" and status == 200:
-                self.cred.append("U:%s:%s:%s" % (self.names.ren(ident_before or "-"), fd["username"], pw))
+                self.cred.append("U:%s:%s:%s" % (self.rtok(ident_before), tok(fd["username"]), pw))
             elif path == "/users/login":
-                self.cred.append("L:%s:%s:%d" % (fd["username"], pw, status))
+                self.cred.append("L:%s:%s:%d" % (tok(fd["username"]), pw, status))
         if path == "/users/delete" and status == 200:
-            self.cred.append("D:%s" % self.names.ren(ident_before or "-"))
+            self.cred.append("D:%s" % self.rtok(ident_before))
         body = canon_body(status, data, self.detail, self.names.ren)
         payload = "%d %s %s" % (status, ev, body)
         self.emit("= " + payload)
@@ -766,7 +836,7 @@ class Run:
             name = e["filters"][0].get("name")
             jar = self.jars.get(jn)
             if isinstance(name, str) and jar is not None and jar.cookie:
-                st, data, _ev = send(jar, "GET", "/adf/" + name, None)
+                st, data, _ev = send(jar, "GET", "/adf/" + seg(name), None)
                 if st == 200:
                     try:
                         rt = sorted(canon_task(t) for t in json.loads(data.decode())["running_tasks"])
@@ -776,13 +846,12 @@ class Run:
                     self.emit("~ ok")
         # the write is a command issued for the spawning request's identity
         fu = e["filters"][0].get("username")
-        self.iso.append("c/update/%s/%s" % (self.names.ren(fu) if isinstance(fu, str) else "-",
-                                           self.names.ren(actor) if actor else "-"))
+        self.iso.append("c/update/%s/%s" % (self.rtok(fu), self.rtok(actor) if actor else "-"))
 
     # -- monitors ---------------------------------------------------------------------------
     def monitor_request(self, jname, actor, entries, status, data):
         ren = self.names.ren
-        a = ren(actor) if actor else "-"
+        a = self.rtok(actor) if actor else "-"
         found = set()
         for e in entries:
             if not is_problem_cmd(e) or is_task_write(e):
@@ -792,7 +861,7 @@ class Run:
             else:
                 us = [f.get("username") if isinstance(f.get("username"), str) else None for f in e["filters"]]
             for u in us:
-                self.iso.append("c/%s/%s/%s" % (e["cmd"], ren(u) if u is not None else "-", a))
+                self.iso.append("c/%s/%s/%s" % (e["cmd"], self.rtok(u), a))
             if e["cmd"] == "find":
                 for f in e["filters"]:
                     if f.get("username") == actor:
@@ -808,8 +877,8 @@ class Run:
         except ValueError:
             pass
         if probs:
-            got = ["%s:%s" % (ren(p["name"]), fnv64(p["code"])[:8]) for p in probs]
-            own = sorted("%s:%s" % (ren(n), fnv64(c)[:8]) for n, c in found)
+            got = ["%s:%s" % (tok(ren(p["name"])), fnv64(p["code"])[:8]) for p in probs]
+            own = sorted("%s:%s" % (tok(ren(n)), fnv64(c)[:8]) for n, c in found)
             self.iso.append("r/%s/%s/%s" % (a, ",".join(got) or "-", ",".join(own) or "-"))
 
     def finish(self, k):
@@ -835,7 +904,7 @@ class Run:
                 cls = "argon2-dup"
             else:
                 cls = "argon2"
-            users.append("%s:%s" % (ren(d.get("username", "?")), cls))
+            users.append("%s:%s" % (tok(ren(d.get("username", "?"))), cls))
         probs = []
         for d in dump.get(PROBS_NS, []):
             probs.append({"name": ren(d.get("name", "?")), "username": ren(d.get("username", "?")), "code": d.get("code"),
@@ -1041,7 +1110,7 @@ def run_conc_case(rig, out, k, seed, history, njars):
         else:
             cands = sorted({r["actor"] for r in records if r["actor"] is not None and r["t0"] <= t1 and r["t1"] >= t0})
         for u in us:
-            iso.append("c/%s/%s/%s" % (e["cmd"], u if u is not None else "-", "+".join(cands) or "-"))
+            iso.append("c/%s/%s/%s" % (e["cmd"], tok(u) if u is not None else "-", "+".join(tok(c) for c in cands) or "-"))
     # responses: every problem shown to a jar was returned by a find carrying that jar's identity while
     # the request was in flight
     for r in records:
@@ -1063,9 +1132,9 @@ def run_conc_case(rig, out, k, seed, history, njars):
                     if r["actor"] is not None and f.get("username") == r["actor"]:
                         for d in e.get("returned", []):
                             found.add((d.get("name"), d.get("code")))
-        got = ["%s:%s" % (p["name"], fnv64(p["code"])[:8]) for p in probs]
-        own = sorted("%s:%s" % (n, fnv64(c)[:8]) for n, c in found)
-        iso.append("r/%s/%s/%s" % (r["actor"] or "-", ",".join(got) or "-", ",".join(own) or "-"))
+        got = ["%s:%s" % (tok(p["name"]), fnv64(p["code"])[:8]) for p in probs]
+        own = sorted("%s:%s" % (tok(n), fnv64(c)[:8]) for n, c in found)
+        iso.append("r/%s/%s/%s" % (tok(r["actor"]) if r["actor"] else "-", ",".join(got) or "-", ",".join(own) or "-"))
     # credentials
     run = Run(rig, out, "conc")
     run.names = names
@@ -1246,6 +1315,109 @@ def run_d14(rig, out, k, seed):
     return reproduced
 
 
+RUNKEY_SEPS = ["/", "%2F", ":", " ", "|", "?", "#", "&", "=", "+", ".", "\u00fc", ",", ";", "\\", "-", "_", "@", "\"", "//"]
+
+
+def pairs_code(n):
+    """n mutual attacks: 2^n stable models; StableNogood on it keeps a worker busy for seconds"""
+    return "".join("s(a%d).s(b%d)." % (i, i) for i in range(n)) + \
+        "".join("ac(a%d,neg(b%d)).ac(b%d,neg(a%d))." % (i, i, i, i) for i in range(n))
+
+
+class Retry(Exception):
+    def __init__(self, msg, writes):
+        Exception.__init__(self, msg)
+        self.writes = writes      # task writes the discarded attempt will still issue
+
+
+def run_runkey(rig, out, k, seed):
+    """the key of a running task is the PAIR (user, problem), not a concatenation: user A = `x` with problem `y<sep>z`
+    and user B = `x<sep>y` with problem `z` (sep = `/` first, then other separators; every second case with the roles
+    swapped).  While A's StableNogood task on a big ADF is STILL RUNNING, B looks at its own problem (running_tasks
+    must be empty), starts its own StableNogood (must be accepted) and A sees its task running and cannot start it a
+    second time.  All of this goes through the sequential model: no `taskfin`/`taskdone` of A's task is reported
+    before the end, so the model has it running, too.  Deterministic; if the big task ends too early the attempt is
+    thrown away and repeated with a bigger ADF."""
+    sep = RUNKEY_SEPS[(k // 2) % len(RUNKEY_SEPS)]
+    a, b = ("x", "y" + sep + "z"), ("x" + sep + "y", "z")
+    if k % 2 == 1:
+        a, b = b, a
+    import io
+    n = int(os.environ.get("WEBHARNESS_RUNKEY_PAIRS", "8"))
+    for attempt in range(4):
+        buf = io.StringIO()
+        try:
+            # the last attempt is printed whatever happens (a server on which the schedule cannot be kept shows up
+            # as differences to the model, not as a harness failure)
+            runkey_attempt(rig, buf, k, seed, a, b, n + attempt, sep, attempt == 3)
+            out.write(buf.getvalue())
+            return
+        except Retry as e:
+            # let the discarded attempt's tasks come to their end before the database is reset
+            rig.stub.wait_applied(is_task_write, e.writes, timeout=150)
+
+
+def runkey_attempt(rig, out, k, seed, a, b, n, sep, final):
+    rig.ensure()
+    rig.stub.reset()
+    out.write("case web-%d mode=runkey seed=%d\n" % (k, seed))
+    run = Run(rig, out, "runkey")
+    (ua, pa), (ub, pb) = a, b
+    ca = [("username", ua), ("password", PWS[0])]
+    cb = [("username", ub), ("password", PWS[1])]
+    run.http("j0", "POST", "/users/register", ca)
+    run.http("j0", "POST", "/users/login", ca)
+    run.http("j1", "POST", "/users/register", cb)
+    run.http("j1", "POST", "/users/login", cb)
+    run.http("j0", "POST", "/adf/add", [("name", pa), ("code", pairs_code(n)), ("parsing", "Naive")])
+    run.http("j1", "POST", "/adf/add", [("name", pb), ("code", CODE_A), ("parsing", "Naive")])
+    wa, wb = "/adf/" + seg(pa), "/adf/" + seg(pb)
+    j0 = run.jar("j0")
+
+    def running_a():
+        st, data, _ = send(j0, "GET", wa, None)
+        try:
+            return [canon_task(t) for t in json.loads(data.decode())["running_tasks"]]
+        except (ValueError, KeyError):
+            return []
+
+    st, data = run.http("j0", "PUT", wa + "/solve", [("strategy", "StableNogood")], wait=False)
+    if st != 200:
+        raise SystemExit("runkey: A's solve was not accepted: %d %r" % (st, data[:100]))
+    # the guard enters currently_running on the worker thread: wait (silently) until it is there
+    t0 = time.time()
+    while "Solve:StableNogood" not in running_a():
+        if time.time() - t0 > 20:
+            if final:
+                break
+            raise Retry("task never seen running", run.accepted)
+        time.sleep(0.005)
+    # B, whose "<user><sep><problem>" is A's: its own view and its own solve
+    run.http("j1", "GET", wb, None)
+    run.accepted -= 1            # A's task is not expected to write yet: wait for B's only
+    run.http("j1", "PUT", wb + "/solve", [("strategy", "StableNogood")])
+    run.accepted += 1
+    run.http("j1", "GET", wb, None)
+    # A: the same solve again is refused while it runs, and the task is shown as running
+    st2, _ = run.http("j0", "PUT", wa + "/solve", [("strategy", "StableNogood")], wait=False)
+    if st2 == 200 and not final:
+        # accepted a second time: the first task ended a moment ago (the guard is dropped before the final write)
+        raise Retry("task over before the second solve with %d pairs" % n, run.accepted)
+    st, data = run.http("j0", "GET", wa, None)
+    try:
+        still = [canon_task(t) for t in json.loads(data.decode())["running_tasks"]]
+    except (ValueError, KeyError):
+        still = []
+    if "Solve:StableNogood" not in still and not final:
+        raise Retry("task over after %.2f s with %d pairs" % (time.time() - t0, n), run.accepted)
+    held = time.time() - t0
+    run.wait_tasks()
+    run.http("j0", "GET", wa, None)
+    run.http("j1", "GET", wb, None)
+    run.finish(k)
+    out.write(stat_line(k, run, " pairs=%d running=%.1fs sep=%s" % (n, held, tok(sep))) + "\n")
+
+
 def do_run(args, out):
     rig = Rig(args.server_bin)
     try:
@@ -1270,6 +1442,8 @@ def do_run(args, out):
                 (run_d9a, run_d9b, run_d9c)[k % 3](rig, out, k, seed)
             elif args.mode == "d14":
                 run_d14(rig, out, k, seed)
+            elif args.mode == "runkey":
+                run_runkey(rig, out, k, seed)
             else:
                 raise SystemExit("unknown mode " + args.mode)
             out.flush()
@@ -1297,6 +1471,10 @@ def do_exec(args, out):
                 continue
             if mode in ("d9", "d9b", "d9c"):
                 {"d9": run_d9a, "d9b": run_d9b, "d9c": run_d9c}[mode](rig, out, k, 0)
+                continue
+            if mode == "runkey":
+                m2 = re.match(r"case web-(\d+) ", head)
+                run_runkey(rig, out, int(m2.group(1)) if m2 else k, 0)
                 continue
             rig.ensure()
             rig.stub.reset()
